@@ -2,14 +2,27 @@
 # Owner's tool: run checks against a scratch worktree that already has a change applied, using a
 # separate build directory so that nothing running against /repo is disturbed.
 #   tools/try_mutant_wt.sh <worktree> <ID> [<ID>...]
+# The worktree is compiled in the shared target directory .build-mut (incremental), under a lock;
+# the binaries are then copied to .build-mut-<worktree name>/bin and the checks run against that
+# copy, so that concurrent trials of different worktrees cannot see each other's binaries.
 wt=$1; shift
-export VERIF_REPO=$wt VERIF_BUILD=.build-mut
+name=$(basename "$wt")
 cd /verif
-# cargo decides freshness by mtime: a change made before the last build in this target dir would be skipped
-(cd "$wt" && git diff --name-only | xargs -r touch)
-./vbuild wild wild-b2 || { echo "build failed" >&2; exit 2; }
+mkdir -p .build-mut ".build-mut-$name/bin"
+(
+  flock 8
+  # cargo decides freshness by mtime: a change made before the last build in this target dir
+  # would otherwise be skipped (it once was: a bogus "miss")
+  (cd "$wt" && git diff --name-only | xargs -r touch)
+  VERIF_REPO=$wt VERIF_BUILD=.build-mut ./vbuild wild wild-b2 || exit 2
+  cp -f .build-mut/bin/wild ".build-mut-$name/bin/wild"
+  cp -f .build-mut/bin/wild-b2 ".build-mut-$name/bin/wild-b2"
+  for f in unitx linker-diff; do [ -e .build/bin/$f ] && cp -f .build/bin/$f ".build-mut-$name/bin/$f"; done
+  exit 0
+) 8> .build-mut/trial.lock || { echo "build failed" >&2; exit 2; }
+export VERIF_REPO=$wt VERIF_BUILD=.build-mut-$name
 for id in "$@"; do
-  out=/dev/shm/mutwt_$(basename "$wt")_$id.log
+  out=/dev/shm/mutwt_${name}_$id.log
   timeout 3000 ./check "$id" --tier ${TIER:-quick} --no-build > "$out" 2>&1
   echo "$id exit=$? violations=$(grep -c '^VIOLATION' "$out") $(grep '^  key' "$out" | head -4 | cut -c1-160 | tr '\n' ';')"
 done
